@@ -306,6 +306,9 @@ fn exec_run(make_rt: impl FnOnce() -> Runtime, cfg: &RunCfg) -> J {
     let mut peak_heap: usize = 0;
     let mut peak_objs: usize = 0;
     let mut stack_len_done: Option<usize> = None;
+    let mut inv: Vec<String> = vec![];
+    let mut prev_ticks: u64 = 0;
+    let mut max_threads: usize = 0;
 
     let res = catch_unwind(AssertUnwindSafe(|| {
         let mut rt = make_rt();
@@ -321,6 +324,38 @@ fn exec_run(make_rt: impl FnOnce() -> Runtime, cfg: &RunCfg) -> J {
             steps += st.steps_consumed as u64;
             if st.steps_consumed > k {
                 over_budget = true;
+                if inv.len() < 8 {
+                    inv.push(format!("over-budget: call {calls} budget {k} consumed {}", st.steps_consumed));
+                }
+            }
+            // truthfulness invariants of the status report (C11), observed at the API boundary
+            {
+                let now = verif::counters().ticks;
+                let executed = now - prev_ticks;
+                prev_ticks = now;
+                if executed != st.steps_consumed as u64 && inv.len() < 8 {
+                    inv.push(format!(
+                        "steps-accounting: call {calls} reported {} executed {executed}",
+                        st.steps_consumed
+                    ));
+                }
+                let main_done = matches!(rt.main().status(), abra_core::vm::VmStatus::Done);
+                let main_err = rt.main().get_error().is_some();
+                let kd = matches!(st.kind, RuntimeStatusKind::Done);
+                let ke = matches!(st.kind, RuntimeStatusKind::MainThreadError(_));
+                if kd != main_done && inv.len() < 8 {
+                    inv.push(format!("done-mismatch: call {calls} reported_done={kd} main_done={main_done}"));
+                }
+                if ke != (main_err && !main_done) && inv.len() < 8 {
+                    inv.push(format!("error-mismatch: call {calls} reported_error={ke} main_error={main_err}"));
+                }
+                if matches!(st.kind, RuntimeStatusKind::PendingHostFunc)
+                    && rt.verif_pending_host_thread().is_none()
+                    && inv.len() < 8
+                {
+                    inv.push(format!("host-mismatch: call {calls} reported a pending host call but no task has one"));
+                }
+                max_threads = max_threads.max(rt.verif_thread_count());
             }
             let (hb, ho) = rt.verif_heap_stats();
             peak_heap = peak_heap.max(hb);
@@ -465,6 +500,8 @@ fn exec_run(make_rt: impl FnOnce() -> Runtime, cfg: &RunCfg) -> J {
     out.insert("steps".into(), json!(steps));
     out.insert("calls".into(), json!(calls));
     out.insert("over_budget".into(), json!(over_budget));
+    out.insert("inv".into(), json!(inv));
+    out.insert("max_threads".into(), json!(max_threads));
     out.insert("host_calls".into(), json!(host_calls));
     out.insert("viol".into(), json!(viol));
     out.insert("peak_heap".into(), json!(peak_heap));
